@@ -258,6 +258,37 @@ Section Machine.
     match ps with [] => fun _ => [] | p :: r => seq2 p (seqs r) end.
   Definition nlen {A} (l : list A) : N := N.of_nat (length l).
 
+  (* ---- add with effective verification (per-call verify=True, or the store's default) ----
+     HashFileDB.add: pre-add check of every requested oid (in path order), the copies, then per
+     requested oid check + protect (protect only if the check did not drop the object), then the
+     state transaction for the paths that exist. *)
+  Definition present (w : world) (o : oid) : bool :=
+    match obj w o with Some _ => true | None => false end.
+  Definition vpost1 (w : world) (o : oid) : list astep :=
+    let h := heal1_steps w o in
+    if present (run h w) o then h ++ [Chmod o] else h.
+  Fixpoint vpost (req : list oid) : prog :=
+    fun w => match req with
+             | [] => []
+             | o :: r => let p := vpost1 w o in p ++ vpost r (run p w)
+             end.
+  Definition vtail (req : list oid) : prog :=
+    seq2 (vpost req) (fun w => [StateSave (self_rows (filter (present w) req))]).
+  Definition vadd_prog (chk : bool) (t : N) (its : items) : prog :=
+    seq2 (heal_prog (map fst its))
+         (fun w => let todo := if chk then filter (absent w) its else its in
+                   let cp := map Mkdir (dedup (map (fun it => pfx (fst it)) todo)) ++ probe_of todo ++
+                             copy_blocks t todo in
+                   cp ++ vtail (dedup (map fst its)) (run cp w)).
+  Definition mem_vadd_prog (t : N) (it : oid * bytes) : prog :=
+    seq2 (heal_prog [fst it])
+         (fun w => let cp := if absent w it then mem_block t it else [] in
+                   cp ++ vtail [fst it] (run cp w)).
+  Definition add_gen (vfy chk : bool) (t : N) (its : items) : prog :=
+    if vfy then vadd_prog chk t its else add_prog chk t its.
+  Definition mem_add_gen (vfy : bool) (t : N) (it : oid * bytes) : prog :=
+    if vfy then mem_vadd_prog t it else mem_add_prog t it.
+
   (* index.save: all file entries in one add, then one add per directory object.  Temp names are
      numbered in the order they are created. *)
   Fixpoint mem_adds (t : N) (ds : items) : prog :=
@@ -282,14 +313,40 @@ Section Machine.
     seq2 (heal_prog qs)
          (fun w => seq2 (files_add t files) (dir_add mem (t + nlen (filter (absent w) files)) d) w).
 
+  (* ---- the same scenarios with verification switched on ---- *)
+  Definition n_ren (p : list astep) : N :=
+    nlen (filter (fun s => match s with Rename _ _ => true | _ => false end) p).
+  Fixpoint mem_vadds (t : N) (ds : items) : prog :=
+    fun w =>
+      match ds with
+      | [] => []
+      | d :: r => let p := mem_vadd_prog t d w in p ++ mem_vadds (t + 2 * n_ren p) r (run p w)
+      end.
+  (* index.save(..., verify=vf) into a store whose default is vd: the per-call flag reaches the add
+     of the files only; add_update_tree uses the store's default *)
+  Definition save_gen (vf vd : bool) (t : N) (files dirs : items) : prog :=
+    fun w => if vf || vd
+             then let a := vadd_prog true t files w in
+                  a ++ (if vd then mem_vadds else mem_adds) (t + n_ren a) dirs (run a w)
+             else save_prog t files dirs w.
+  Definition vtransfer_prog (mem : bool) (t : N) (qs : list oid) (files : items) (d : oid * bytes) : prog :=
+    seq2 (heal_prog qs)
+         (fun w => let a := match filter (absent w) files with [] => [] | new => vadd_prog false t new w end in
+                   a ++ (fun w2 => if absent w2 d
+                                   then (if mem then mem_vadd_prog (t + n_ren a) d w2
+                                         else vadd_prog false (t + n_ren a) [d] w2)
+                                   else []) (run a w)).
+  Definition transfer_gen (v mem : bool) (t : N) (qs : list oid) (files : items) (d : oid * bytes) : prog :=
+    if v then vtransfer_prog mem t qs files d else transfer_prog mem t qs files d.
+
   (* build(upload=True): every file first goes to a temp name at the store root *)
   Fixpoint upload_tmps (t : N) (files : items) : list astep :=
     match files with
     | [] => []
     | it :: r => [CreateTmp t; WriteTmp t (snd it); MoveTmp t (t + 1)] ++ upload_tmps (t + 2) r
     end.
-  Definition upload_prog (t : N) (qs : list oid) (ups files : items) (d : oid * bytes) : prog :=
-    seq2 (fun _ => upload_tmps t ups) (transfer_prog true (t + 2 * nlen ups) qs files d).
+  Definition upload_prog (v : bool) (t : N) (qs : list oid) (ups files : items) (d : oid * bytes) : prog :=
+    seq2 (fun _ => upload_tmps t ups) (transfer_gen v true (t + 2 * nlen ups) qs files d).
 
   (* ---- comparison modulo temp names and state rows ---- *)
   Definition store_eq (a b : world) : Prop := forall o, obj a o = obj b o.
@@ -355,10 +412,10 @@ Definition enc_world (w : cworld) : val := VL [enc_objs w; enc_tmps w; enc_rows 
 
 Inductive scen : Type :=
 | ScNone
-| ScSave (t : N) (files dirs : list (oid * oid))
-| ScTransfer (mem : bool) (t : N) (qs : list oid) (files : list (oid * oid)) (d : oid * oid)
-| ScUpload (t : N) (qs : list oid) (ups files : list (oid * oid)) (d : oid * oid)
-| ScAdd (chk : bool) (t : N) (its : list (oid * oid)).
+| ScSave (vf vd : bool) (t : N) (files dirs : list (oid * oid))
+| ScTransfer (v mem : bool) (t : N) (qs : list oid) (files : list (oid * oid)) (d : oid * oid)
+| ScUpload (v : bool) (t : N) (qs : list oid) (ups files : list (oid * oid)) (d : oid * oid)
+| ScAdd (v chk : bool) (t : N) (its : list (oid * oid)).
 
 Record tcase := mkT {
   t_kids : list (oid * list oid);
@@ -373,10 +430,10 @@ Definition scen_prog (cpart : oid -> oid) (e : oid) (sc : scen) : cworld -> list
   let H := fun b : oid => b in
   match sc with
   | ScNone => fun _ => []
-  | ScSave t fs ds => save_prog oid e cpart t fs ds
-  | ScTransfer mem t qs fs d => transfer_prog oid H e cpart mem t qs fs d
-  | ScUpload t qs ups fs d => upload_prog oid H e cpart t qs ups fs d
-  | ScAdd chk t its => add_prog oid cpart chk t its
+  | ScSave vf vd t fs ds => save_gen oid H e cpart vf vd t fs ds
+  | ScTransfer v mem t qs fs d => transfer_gen oid H e cpart v mem t qs fs d
+  | ScUpload v t qs ups fs d => upload_prog oid H e cpart v t qs ups fs d
+  | ScAdd v chk t its => add_gen oid H e cpart v chk t its
   end.
 
 (* [valid ; crash_inv_b at every prefix ; the store (objects, temp contents, valid rows) at every
